@@ -3,6 +3,8 @@ import Juniper.Proofs.Replicate
 import Juniper.Proofs.StreamMergeClose
 import Juniper.Proofs.StreamMergeResults
 import Juniper.Proofs.StreamMergeProgress
+import Juniper.Model.Skeleton
+import Juniper.Generated.Skeleton
 /-!
 # C12 — Merge / Replicate move every value exactly once and finish when their inputs do
 
@@ -15,6 +17,24 @@ sends and closes, the consumer's receives and the steps of the merging goroutine
 namespace Juniper.Props.C12
 open Juniper.Model
 open Juniper.Model.Merge (HasNil)
+
+/-- Tie 1 for the control flow *between* the regenerated facts: the statement-kind skeletons of
+`chans.Merge`, `merge2`, `merge3`, `chans.Replicate`, `stream.Merge`, its per-input goroutine (`for {
+Next; if End {return} else if err != nil { if CAS { cancel(); sender.Close(err) }; return }; Send; if
+err != nil {return} }` under the three `defer`s), its `cancel` closure, `mergeStream.Next/Close` and
+of the `Pipe` functions the merged stream is built on, regenerated from the Go source
+(`Juniper.Gen.Skeleton`), are exactly the ones the LTSs hard-wire (`Model/Skeleton.lean`): no statement
+was added (an early `return` in front of the CAS, a filter on the error's kind), removed or moved. -/
+theorem skeleton_ok :
+    (Gen.Skeleton.chansMerge = Model.Skeleton.chansMerge ∧ Gen.Skeleton.merge2 = Model.Skeleton.merge2 ∧
+      Gen.Skeleton.merge3 = Model.Skeleton.merge3 ∧ Gen.Skeleton.replicate = Model.Skeleton.replicate) ∧
+    (Gen.Skeleton.streamMerge = Model.Skeleton.streamMerge ∧
+      Gen.Skeleton.streamMergeWorker = Model.Skeleton.streamMergeWorker ∧
+      Gen.Skeleton.streamMergeCancel = Model.Skeleton.streamMergeCancel ∧
+      Gen.Skeleton.mergeNext = Model.Skeleton.mergeNext ∧ Gen.Skeleton.mergeClose = Model.Skeleton.mergeClose) ∧
+    (Gen.Skeleton.send = Model.Skeleton.send ∧ Gen.Skeleton.pipeNext = Model.Skeleton.pipeNext ∧
+      Gen.Skeleton.senderClose = Model.Skeleton.senderClose ∧ Gen.Skeleton.pipeClose = Model.Skeleton.pipeClose) := by
+  decide
 
 section chans
 variable {V : Type} [HasNil V]
@@ -31,12 +51,15 @@ four code paths), every element type, every reachable state: for every input `i`
 delivered from `i`, followed by the value Merge holds for `i` (blocked in `out <- item`), followed by
 what is still receivable on `i`, is exactly what was ever offered on `i`. So `out` restricted to
 input `i` is a prefix of input `i` (per-input order, nothing invented or duplicated), every
-delivered value comes from one of the `n` inputs, and Merge never panics (nil values included). -/
+delivered value comes from one of the `n` inputs, and Merge never panics (nil values included). First
+conjunct: the four code paths have the control flow the LTS hard-wires (regenerated skeletons). -/
 theorem merge_interleaving (n : Nat) (s : St V) (h : Reach (init V n) s) :
+    (Gen.Skeleton.chansMerge = Model.Skeleton.chansMerge ∧ Gen.Skeleton.merge2 = Model.Skeleton.merge2 ∧
+      Gen.Skeleton.merge3 = Model.Skeleton.merge3) ∧
     (∀ i c, s.ins[i]? = some c → proj i s.out ++ held i s.pc ++ c.avail = c.sent) ∧
     (∀ p, p ∈ s.out → p.1 < n) ∧ s.pc ≠ .panicked :=
   let hi := reach_inv h
-  ⟨hi.conserve, hi.tags, hi.noPanic⟩
+  ⟨⟨by decide, by decide, by decide⟩, hi.conserve, hi.tags, hi.noPanic⟩
 
 example : ∃ s : St (Option Int), Reach (init (Option Int) 4) s ∧ s.out = [(2, none), (0, some 5)] ∧
     s.pc = .hold 2 (some 9) :=
@@ -89,15 +112,17 @@ value it is still owed of the item being fanned out, followed by what is still r
 is exactly what was ever offered on `src`; so each destination holds a prefix of the source, in
 order. Replicate has returned only if `src` is closed and drained (then every destination holds the
 whole source), and once `src` is closed and drained and every destination has everything, its next
-own step returns. -/
+own step returns. First conjunct: Replicate is the two nested `range` loops around one send and nothing
+else (regenerated skeleton). -/
 theorem replicate_all_in_order (m : Nat) (s : RSt V) (h : RReach (rinit V m) s) :
+    Gen.Skeleton.replicate = Model.Skeleton.replicate ∧
     (∀ j o, s.outs[j]? = some o → o ++ rOwed j s.pc ++ s.src.avail = s.src.sent) ∧
     s.outs.length = m ∧
     (s.pc = .done → s.src.closed = true ∧ s.src.avail = [] ∧
       ∀ (j : Nat) (o : List V), s.outs[j]? = some o → o = s.src.sent) ∧
     (RAllDone s → s.pc ≠ .done → ∃ s', rstep s .recv = some s' ∧ s'.pc = .done) := by
   have hi := rreach_inv h
-  refine ⟨hi.conserve, hi.len, ?_, fun ha hnd => rprogress hi ha hnd⟩
+  refine ⟨by decide, hi.conserve, hi.len, ?_, fun ha hnd => rprogress hi ha hnd⟩
   intro hd
   obtain ⟨hcl, hav⟩ := hi.done hd
   refine ⟨hcl, hav, ?_⟩
@@ -169,10 +194,12 @@ finished. (Assumption, stated in `internalLabels`: an input's `Next` returns onc
 given is cancelled.) -/
 theorem streamMerge_goroutines_finish_after_close (k : Nat) (s : St V) (h : Reach (init V k) s)
     (rest : List CloseStep) (hc : s.cpc = .closing rest) :
+    (Gen.Skeleton.mergeClose = Model.Skeleton.mergeClose ∧ Gen.Skeleton.streamMergeCancel = Model.Skeleton.streamMergeCancel ∧
+      Gen.Skeleton.streamMergeWorker = Model.Skeleton.streamMergeWorker) ∧
     (∀ l s', step s l = some s' → nu s' < nu s ∧ ∃ rest', s'.cpc = .closing rest') ∧
     ((rest ≠ [] ∨ ∃ g, g ∈ s.gs ∧ g.pc ≠ .finished) → ∃ l, l ∈ internalLabels s ∧ ∃ s', step s l = some s') ∧
     (∃ ls s', run s ls = some s' ∧ InternalRun s ls ∧ s'.cpc = .closing [] ∧ ∀ g, g ∈ s'.gs → g.pc = .finished) :=
-  ⟨fun _ _ hs => after_close_decreases hc hs,
+  ⟨⟨by decide, by decide, by decide⟩, fun _ _ hs => after_close_decreases hc hs,
    fun hnf => after_close_enabled (reach_invA h) (reach_invD h) hc hnf,
    after_close_finishes (nu s) s rest (reach_invA h) (reach_invD h) hc (Nat.le_refl _)⟩
 
@@ -223,8 +250,14 @@ the same; (2) once any input has returned an error the consumer is never told th
 (3) once the sender is closed with error `e`, a pending `Next` can always return, and returns `e`;
 (4) once any input has returned an error, a consumer waiting in `Next` is never stuck: some step
 that needs no further input (the CAS, a statement of the winner, or the `senderDone` arm of `Next`)
-is enabled — the error cannot be followed by silence. -/
+is enabled — the error cannot be followed by silence. (0) First conjunct: between an input's `Next`
+returning a non-End error and the CAS there is no statement — in particular no test of the error's kind
+that returns early —, and `mergeStream.Next`, `pipeStream.Next`, `PipeSender.Close` pass the error
+through untouched (regenerated control skeletons). -/
 theorem streamMerge_first_error (k : Nat) (s : St V) (h : Reach (init V k) s) :
+    (Gen.Skeleton.streamMergeWorker = Model.Skeleton.streamMergeWorker ∧
+      Gen.Skeleton.mergeNext = Model.Skeleton.mergeNext ∧ Gen.Skeleton.pipeNext = Model.Skeleton.pipeNext ∧
+      Gen.Skeleton.senderClose = Model.Skeleton.senderClose) ∧
     (∀ e, Res.err e ∈ s.results → ∃ i x, e = .inj x ∧ s.winner = some (i, .inj x) ∧ (i, x) ∈ s.errLog) ∧
     (s.errLog ≠ [] → Res.endd ∉ s.results) ∧
     (∀ e, s.senderErr = some e → 0 < s.senderCloses → ∀ live, s.cpc = .inNext live →
@@ -233,7 +266,8 @@ theorem streamMerge_first_error (k : Nat) (s : St V) (h : Reach (init V k) s) :
   have ha := reach_invA h
   have hc := reach_invC h
   have hf := reach_invF h
-  refine ⟨?_, ?_, ?_, fun herr live hcp => error_never_stuck ha hc hf (reach_invL h) herr hcp⟩
+  refine ⟨⟨by decide, by decide, by decide, by decide⟩, ?_, ?_, ?_,
+    fun herr live hcp => error_never_stuck ha hc hf (reach_invL h) herr hcp⟩
   · intro e he
     obtain ⟨i, x, h1, h2⟩ := hf.r1 e he
     exact ⟨i, x, h1, h2, hc.w4 i x h2⟩
@@ -311,7 +345,7 @@ theorem streamMerge_end_only_if_all_done (k : Nat) (s : St V) (h : Reach (init V
     simpa using this
   · cases hl : s.errLog with
     | nil => rfl
-    | cons p rest => exact absurd hend ((streamMerge_first_error k s h).2.1 (by rw [hl]; simp))
+    | cons p rest => exact absurd hend ((streamMerge_first_error k s h).2.2.1 (by rw [hl]; simp))
 
 /-- **The merged stream ends exactly when all inputs are exhausted and everything has been
 delivered.** Only if: `streamMerge_end_only_if_all_done`. If: in every reachable state in which every
